@@ -961,7 +961,9 @@ pub fn gen_c18(rng: &Rng, tier: Tier) -> C18Scn {
             s.small_at = Some(s.warm + 8 + rng.range(0, s.window.saturating_sub(12).max(1)));
         }
         let big = c18_record(&s, 0).len();
-        s.cap = big + rng.range(2, 6);
+        // (down to the exact fit: a FASTQ record of exactly `cap` bytes fits, a FASTA record needs
+        // one byte of look-ahead)
+        s.cap = big + rng.range(if fmt == Fmt::Fastq { 0 } else { 1 }, 6);
         s.warm = s.warm.max(4 * s.small_every + 6);
         return s;
     }
